@@ -191,7 +191,10 @@ def make_torn(rng, tier):
             ops.append(op)
             if cfg['nproc'] > 1 and rng.random() < 0.4:
                 # the other process works on the same entry at the same time
-                ops.append(dict(_parse_op(rng, cfg, modes, p=1 - op['p']), f=op['f'], g=op['g'], c=op['c']))
+                other = dict(_parse_op(rng, cfg, modes, p=1 - op['p']), g=op['g'], c=op['c'])
+                if rng.random() < 0.6:
+                    other['f'] = op['f']             # ... or on another entry of the same directory
+                ops.append(other)
         elif r < 0.62 and 'corrupt' in enabled:
             ops.append({'k': 'corrupt', 'c': c, 'sel': rng.randrange(8), 'how': rng.choice(CORRUPTIONS),
                         'a': rng.randrange(1 << 16), 'b': rng.randrange(1 << 16), 'r': rng.randrange(1 << 30)})
